@@ -255,3 +255,30 @@ def _(self: Obj(GetPropertyResponse), header: Union[Obj(CmdHeader, tag=U8, flags
     ensures(len(self.values) == header.params_count - 1 and all(self.values[i] == int.from_bytes(raw_data[4 + 4 * i: 8 + 4 * i], "little") for i in range(header.params_count - 1)),
             label="property-values-as-sent-in-order")
     modifies(self.header, self.raw_data, self.status, self.values)
+
+
+# ---- host-to-device data phase: the chunks are the data, once, in order, none larger than the negotiated packet size ------------------------
+def SPLIT_MB(ps):
+    return Obj(McuBoot, _interface=Obj("contracts.C10_mboot:_FakeIf", need_data_split=OneOf(False, True)), max_packet_size=Const(ps))
+
+
+_SPLIT_LENS = (0, 1, 31, 32, 33, 56, 57, 64, 69, 117)
+
+
+@contract("spsdk.mboot.mcuboot:McuBoot._split_data", split=2)
+def _(self: Union[SPLIT_MB(32), SPLIT_MB(56)], data: Union[tuple(Bytes(n) for n in _SPLIT_LENS)]) -> Opaque():
+    let(ps=self.max_packet_size)
+    ensures(b"".join(result) == data, label="chunks-concatenate-to-the-data-once-in-order")
+    ensures(implies(self._interface.need_data_split, all(0 < len(c) and len(c) <= ps for c in result) and len(result) == (len(data) + ps - 1) // ps),
+            label="no-chunk-larger-than-the-negotiated-size-none-empty")
+    ensures(implies(not self._interface.need_data_split, len(result) == 1), label="transports-that-frame-themselves-get-one-chunk")
+    pure()
+    sample_with(lambda rnd: _sample_split(rnd))
+
+
+def _sample_split(rnd):
+    mb = object.__new__(McuBoot)
+    mb._interface = _FakeIf(True)
+    mb._interface.need_data_split = rnd.random() < 0.8
+    mb.max_packet_size = rnd.choice([32, 56])
+    return {"self": mb, "data": bytes(rnd.getrandbits(8) for _ in range(rnd.choice(_SPLIT_LENS)))}
